@@ -96,6 +96,9 @@ def _collect_for(iter_text, pat):
                 "let %s = &verif_ids[verif_j]; verif_j += 1;" % pat)
     if t == "fileids":
         return ("let mut verif_j: usize = 0;", "verif_j < fileids.len()", "let %s = fileids[verif_j]; verif_j += 1;" % pat)
+    m = _re.match(r"^(\d+)\.\.readers\.capacity\(\)$", t)
+    if m and pat == "_":
+        return ("let verif_n: usize = readers.capacity(); let mut verif_j: usize = %s;" % m.group(1), "verif_j < verif_n", "verif_j += 1;")
     return None
 
 
@@ -112,6 +115,7 @@ R_FILEIDS_TY = make_seq_rule("R-fileids", "io::Result<impl Iterator<Item = u64>>
 R_STD_IO2 = make_seq_rule("R-std-io", "std::io::", "io::")
 
 R_VIS = make_seq_rule("R-vis", "pub fn sync", "fn sync")
+R_VIS2 = make_seq_rule("R-vis", "pub fn get_handle", "fn get_handle")
 R_BREAK_VALUE = make_break_value_rule(["get"])
 R_INTERIOR_CLOSE = make_seq_rule("R-interior", "fn close(&self)", "fn close(&mut self)")
 # the Handle's mutating operations lock the writer: `&self` is read as `&mut self` so that the Mutex shim can expose the protected
@@ -120,12 +124,22 @@ R_INTERIOR_HPUT = make_seq_rule("R-interior", "fn put(&self", "fn put(&mut self"
 R_INTERIOR_HDEL = make_seq_rule("R-interior", "fn delete(&self", "fn delete(&mut self")
 R_INTERIOR_HMERGE = make_seq_rule("R-interior", "fn merge(&self", "fn merge(&mut self")
 R_INTERIOR_HSYNC = make_seq_rule("R-interior", "fn sync(&self", "fn sync(&mut self")
+# Bitcask::open (start-up wiring).  R-arc for values: Arc::new(x) is x, cloning an Arc yields the same object (equal value);
+# the pool is created in the World; the background thread and the broadcast channel are shims without effect on the World
+R_ARC_NEW = make_seq_rule("R-arc", "Arc::new(", "verif_arc_new(")
+R_ARC_CLONE_CTX = make_seq_rule("R-arc", "ctx.clone()", "verif_arc_clone(&ctx)")
+R_ARC_CLONE_HANDLE = make_seq_rule("R-arc", "self.handle.clone()", "verif_arc_clone(&self.handle)")
+R_POOL_NEW1 = make_seq_rule("R-ghost-arg", "ArrayQueue::new(ctx.conf.concurrency)", "ArrayQueue::verif_new(ctx.conf.concurrency, Tracked(w))")
+R_POOL_NEW2 = make_seq_rule("R-ghost-arg", "ArrayQueue::new(ctx.conf.concurrency + 1)", "ArrayQueue::verif_new(ctx.conf.concurrency + 1, Tracked(w))")
+R_THREAD = make_seq_rule("R-thread", 'std::thread::Builder::new().name("bitcask-background-tasks".into()).spawn(move || background_tasks(handle, notify_shutdown))?;',
+                         "verif_thread::spawn_background(handle, notify_shutdown)?;")
+OPEN_RULES = (R_ARC_NEW, R_ARC_CLONE_CTX, R_ARC_CLONE_HANDLE, R_POOL_NEW1, R_POOL_NEW2, R_THREAD)
 R_INTERIOR_KVSET = make_seq_rule("R-interior", "fn set(&self", "fn set(&mut self")
 R_INTERIOR_KVDEL = make_seq_rule("R-interior", "fn del(&self", "fn del(&mut self")
 # the supertraits / bounds of the trait are about threads and error reporting, not about what the methods compute
 R_KV_BOUNDS = make_seq_rule("R-bounds", "KeyValueStorage: Clone + Send + 'static", "KeyValueStorage: KvView")
 R_KV_ERR_BOUND = make_seq_rule("R-bounds", "type Error: std::error::Error + Send + Sync;", "type Error;")
-STORE_RULES = (R_VIS, R_BREAK_VALUE, R_INTERIOR_CLOSE, R_INTERIOR_HPUT, R_INTERIOR_HDEL, R_INTERIOR_HMERGE, R_INTERIOR_HSYNC, R_INTERIOR_KVSET, R_INTERIOR_KVDEL, R_GHOST_ARG, R_DASHMAP_ITER, R_FOR_COLLECT, R_ARC, R_ARC2, R_ARC3, R_INTERIOR_1, R_INTERIOR_2, R_INTERIOR_3,
+STORE_RULES = (R_VIS, R_VIS2, R_BREAK_VALUE, R_INTERIOR_CLOSE, R_INTERIOR_HPUT, R_INTERIOR_HDEL, R_INTERIOR_HMERGE, R_INTERIOR_HSYNC, R_INTERIOR_KVSET, R_INTERIOR_KVDEL) + OPEN_RULES + (R_GHOST_ARG, R_DASHMAP_ITER, R_FOR_COLLECT, R_ARC, R_ARC2, R_ARC3, R_INTERIOR_1, R_INTERIOR_2, R_INTERIOR_3,
                R_INTERIOR_4, R_INTERIOR_5)
 
 BITCASK_ONLY = [
@@ -134,6 +148,7 @@ BITCASK_ONLY = [
     "impl Reader::fn get",
     "fn rebuild_storage", "fn populate_keydir_with_hintfile", "fn populate_keydir_with_datafile",
     "impl Writer::fn merge", "impl Context::fn fileids_to_merge",
+    "struct Bitcask", "impl Bitcask::fn open", "impl Bitcask::fn get_handle",
     "impl KeyValueStorage for Handle::type Error", "impl KeyValueStorage for Handle::fn set", "impl KeyValueStorage for Handle::fn get", "impl KeyValueStorage for Handle::fn del",
     "struct Handle", "impl Handle::fn put", "impl Handle::fn delete", "impl Handle::fn get", "impl Handle::fn merge", "impl Handle::fn sync", "impl Handle::fn close",
 ]
@@ -165,7 +180,7 @@ UNITS["store"] = {
     ],
     "mod_uses": {
         "log": "use super::utils;\nuse super::io::Write;",
-        "bitcask": "use super::log::{self, LogDir, LogIterator, LogStatistics, LogWriter, LogIndex, enc_len};\nuse super::utils::{self, datafile_name};\nuse super::config::*;\nuse super::io::BufWriter;\nuse super::kvtrait::KeyValueStorage;",
+        "bitcask": "use super::log::{self, LogDir, LogIterator, LogStatistics, LogWriter, LogIndex, enc_len};\nuse super::utils::{self, datafile_name};\nuse super::config::*;\nuse super::io::BufWriter;\nuse super::kvtrait::KeyValueStorage;\nuse super::broadcast;",
         "kvtrait": "",
         "utils": "",
         "config": "",
